@@ -194,6 +194,11 @@ impl<'a> Scanner<'a> {
                     } else if self.next_matches('*') {
                         let mut level = 1;
                         loop {
+                            if self.is_empty() {
+                                // the comment is never closed
+                                self.push_error(ScanErrorEnum::UnexpectedCharacter);
+                                break;
+                            }
                             if self.next_matches('/') && self.next_matches('*') {
                                 level += 1;
                             } else if self.next_matches('*') && self.next_matches('/') {
